@@ -774,13 +774,16 @@ pub fn variants(ops_path: &str, scratch: &str) -> (u64, Vec<String>) {
             use std::io::Write as _;
             let mutate = |c: &mut dyn FnMut(&str, &[u8]) -> std::io::Result<()>| -> String {
                 let mut out = Vec::new();
-                for (nm, n) in [("/zz_rw_small", 100usize), ("/zz_rw_large", 5000usize)] {
+                for (nm, n) in [("/zz_rw_small", 100usize), ("/zz_rw_large", 9000usize)] {
                     out.push(match c(nm, &pattern(n, 77)) { Ok(()) => "ok".to_string(), Err(e) => format!("err {}", err_kind(&e)) });
                 }
                 out.join(",")
             };
-            let mut mem = cfb::CompoundFile::open(std::io::Cursor::new(img0.clone())).ok();
-            let mut disk = cfb::open_rw(&file_path).ok();
+            // (options given to the builder must reach the file: a small stream buffer changes how a long
+            // write is laid out, so the bytes tell whether `max_buffer_size` arrived)
+            let small = i % 2 == 0;
+            let mut mem = if small { cfb::OpenOptions::new().max_buffer_size(1024).open_with(std::io::Cursor::new(img0.clone())).ok() } else { cfb::CompoundFile::open(std::io::Cursor::new(img0.clone())).ok() };
+            let mut disk = if small { cfb::OpenOptions::new().max_buffer_size(1024).open_rw(&file_path).ok() } else { cfb::open_rw(&file_path).ok() };
             if let (Some(mc), Some(dc)) = (mem.as_mut(), disk.as_mut()) {
                 let rm = mutate(&mut |nm, data| { let mut st = mc.create_stream(nm)?; st.write_all(data)?; st.flush() });
                 let rd = mutate(&mut |nm, data| { let mut st = dc.create_stream(nm)?; st.write_all(data)?; st.flush() });
@@ -794,6 +797,33 @@ pub fn variants(ops_path: &str, scratch: &str) -> (u64, Vec<String>) {
                 } else if mem_bytes != disk_bytes {
                     let k = mem_bytes.iter().zip(disk_bytes.iter()).position(|(a, b)| a != b).unwrap_or(mem_bytes.len().min(disk_bytes.len()));
                     violations.push(format!("history {} on backend `cfb::open_rw(path)`: after creating two streams the file differs from the in-memory run at byte {} (lengths {} / {})", i, k, disk_bytes.len(), mem_bytes.len()));
+                }
+            }
+        }
+        // `strict()` must reach the file as well: a tolerated deviation (the root entry misnamed) is refused by
+        // every strict constructor and accepted by every permissive one
+        if img0.len() >= 1536 {
+            let s = if img0[30] == 12 { 4096usize } else { 512 };
+            let dir0 = u32::from_le_bytes([img0[48], img0[49], img0[50], img0[51]]) as usize;
+            let off = (dir0 + 1) * s;
+            if off + 128 <= img0.len() && img0[off] == b'R' {
+                let mut dev = img0.clone();
+                dev[off] = b'r';
+                std::fs::write(&file_path, &dev).unwrap();
+                let verdicts: Vec<(&str, bool, bool)> = vec![
+                    ("strict().open_with(Cursor)", true, cfb::OpenOptions::new().strict().open_with(std::io::Cursor::new(dev.clone())).is_ok()),
+                    ("strict().open(path)", true, cfb::OpenOptions::new().strict().open(&file_path).is_ok()),
+                    ("strict().open_rw(path)", true, cfb::OpenOptions::new().strict().open_rw(&file_path).is_ok()),
+                    ("max_buffer_size(2048).strict().open_rw(path)", true, cfb::OpenOptions::new().max_buffer_size(2048).strict().open_rw(&file_path).is_ok()),
+                    ("open(path)", false, cfb::open(&file_path).is_ok()),
+                    ("open_rw(path)", false, cfb::open_rw(&file_path).is_ok()),
+                    ("OpenOptions::new().open_rw(path)", false, cfb::OpenOptions::new().open_rw(&file_path).is_ok()),
+                ];
+                for (name, strict, accepted) in verdicts {
+                    evaluations += 1;
+                    if strict == accepted {
+                        violations.push(format!("history {} on backend `{}`: a file whose root entry is misnamed is {} (strict constructors refuse it, permissive ones accept it)", i, name, if accepted { "accepted" } else { "refused" }));
+                    }
                 }
             }
         }
